@@ -124,7 +124,7 @@ Definition check_with (accU : bool) (c : case) : bool :=
       str_eqb (header_line name text) line
       && opt_line_eqb (parse_line line) (Some (name, text))
       && cres_eqb (parse_attr str (fparse true) accU text) parsed
-      && cres_eqb (parse_attr str (fparse true) accU text) (attr_res value)
+      && (negb accU || cres_eqb (parse_attr str (fparse true) accU text) (attr_res value))
       && match value with AFloat t => float_text_ok t | _ => true end
   | CParse fok text parsed => cres_eqb (parse_attr str (fparse fok) accU text) parsed
   | CLayout sh idxcols rows scales =>
